@@ -29,7 +29,7 @@ CLAIMED = {
          "Trusted: the reference parser in harness/src/gen_vm.rs; opening counts (IfElse 2, When/Unless/DupBlock 1) are taken from the property statement, not from the crate.",
          "DESIGN.md §2 C05"),
  "C10": (PBT + ": tagged parents through all crossover impls with a generated random stream, generated misuse of the exchange primitives, seeded coverage of all two-point segments (len <= 6) and of the segment classes for len 33..257, exact 2^-len law of uniform-crossover source patterns plus per-position rates and lag-agreement statistics on parents of 70..520 genes (Chernoff bound, alpha 1e-12, confirmation stage)",
-         "Exploration: hundreds of thousands (quick) to millions (thorough) of generated recombinations and primitive calls, parents of up to 60 (and, in a second pass, 700; thorough 500 / 3000) genes with four gene types of different width and ownership for the Vec<T> impls, complete segment coverage for lengths 0..6 over 20000+ seeds, pattern law for lengths 1..4, independence at a distance (lags 1..257) for lengths 70..520.",
+         "Exploration: hundreds of thousands (quick) to millions (thorough) of generated recombinations and primitive calls, parents of up to 60 (and, in a second pass, 700; thorough 500 / 3000) genes with four gene types of different width and ownership for the Vec<T> impls, a user-defined genome type (own Linear + Crossover impls, exchange primitives that fail at a generated call) through the generic impls, complete segment coverage for lengths 0..6 over 20000+ seeds, pattern law for lengths 1..4, independence at a distance (lags 1..257) for lengths 70..520.",
          "Trusted: rand 0.9 StdRng; the coverage check assumes every admissible segment has probability >= 1/(len+1)^2.",
          "DESIGN.md §2 C10"),
  "C11": (PBT + ": position-tagged genomes through WithRate / WithOneOverLength / all three Umad constructors with a generated random stream; structural parse of the child (slot grammar P0 N0 P1 N1 ...), generator-provenance of new genes, exact degenerate-rate cases",
@@ -37,39 +37,39 @@ CLAIMED = {
          "Trusted: the harness's slot-grammar parser; Bitstring UMAD is checked on sizes only (bits cannot carry tags).",
          "DESIGN.md §2 C11"),
  "C12": ("seeded statistical property testing: exact-law binomial counts per (operator, configuration) decided by a Chernoff/KL bound (alpha 1e-12 per count) with a confirmation stage; p = 0 and p = 1 decided exactly",
-         "Exploration over the random stream: ~290 configurations x 2e6 (quick) / 4e7 (thorough) seeded trials, ~9700 statistics (incl. per-position rates and lag-agreement statistics on genomes of 130 and 600 genes) each compared with its exactly known law (plus a window check for very small positive rates and the empty-genome addition rate of the three Umad constructors); false-alarm probability < 1e-15 per run; detects rate errors >= ~0.003 (quick) at p = 0.5.",
+         "Exploration over the random stream: ~290 configurations x 2e6 (quick) / 4e7 (thorough) seeded trials, ~9700 statistics (incl. per-position rates and lag-agreement statistics on genomes of 130 and 600 genes) each compared with its exactly known law (plus a window check for very small positive rates, the empty-genome addition rate of the three Umad constructors, and BoolGenerator directly, inside a collection generator and re-tuned through its public fields after use); false-alarm probability < 1e-15 per run; detects rate errors >= ~0.003 (quick) at p = 0.5.",
          "Trusted: rand 0.9 StdRng / Bernoulli; independence of the trials counted together (only disjoint gene pairs are pooled). Not detectable: < vs <=, f32 rounding of a rate, deviations below the stated resolution.",
          "DESIGN.md §1 Statistical method, §2 C12"),
  "C06": (PBT + ": generated populations x generated selector composition trees (real WeightedPair / DynWeighted / reference / erased nodes) with a generated random stream; pointer-identity membership oracle and a small model of which documented errors a configuration justifies",
-         "Exploration: hundreds of thousands (quick) to millions (thorough) of (population, selector tree, random stream) cases with 1-3 draws each, a quarter of them alternating one selector value between two populations (of different sizes, up to 90 members); DynWeighted lists also in a form that was used for a selection (also on an empty population) while still being built; random streams contain extreme words (0, MAX, powers of two).",
+         "Exploration: hundreds of thousands (quick) to millions (thorough) of (population, selector tree, random stream) cases with 1-3 draws each, a quarter of them alternating one selector value between two populations (of different sizes, up to 90 members); DynWeighted lists also in a form that was used for a selection (also on an empty population) while still being built; random streams contain extreme words (0, MAX, powers of two); a fifth of the cases run the whole selector tree over a user-defined population type (hand-written Population impl, lazy borrowed iterator with lower size hint 0, live individuals a prefix of a larger backing store).",
          "Trusted: the harness's delegating enums (combinator nodes are the real types) and its model of justified errors; Ok(member) is also accepted when lexicase is configured with more cases than results.",
          "DESIGN.md §2 C06"),
  "C07": (PBT + " for per-draw invariants (sample recovered from logged comparisons) plus seeded statistical tests of the k-subset uniformity law and the enumerated winner law (Chernoff/KL, alpha 1e-12, confirmation stage)",
-         "Exploration: hundreds of thousands of generated (population, k, stream) cases; for every n <= 7, k <= n the full subset and winner laws against 1e6 (quick) / 1e7 (thorough) seeded draws; for 14 larger configurations (n up to 300, k up to 40) and populations of 70000 / 2^20+3 members the inclusion, pair co-inclusion and pooled winner-rank laws; one selector value alternating between populations of other sizes; agreement of successive winners; the named constructors.",
+         "Exploration: hundreds of thousands of generated (population, k, stream) cases; for every n <= 7, k <= n the full subset and winner laws against 1e6 (quick) / 1e7 (thorough) seeded draws; for 14 larger configurations (n up to 300, k up to 40) and populations of 70000 / 2^20+3 members the inclusion, pair co-inclusion and pooled winner-rank laws; one selector value alternating between (or first used on) populations of other sizes, larger and smaller; agreement of successive winners; the named constructors; a quarter of the per-draw cases over a user-defined population type with strangers behind its live prefix.",
          "Trusted: rand StdRng; the sampled subset is observed through the individuals' Ord::cmp, so an implementation comparing more than k individuals is judged by the winner law only.",
          "DESIGN.md §2 C07"),
  "C08": ("seeded statistical property testing against the exact lexicase law obtained by enumerating all case orders with an independent definition of 'better'; per-draw exact support check (winner has positive probability, never Pareto-dominated)",
-         "Exploration: 400 (quick) / 8000 (thorough) generated result matrices (up to 8 x 5) plus 12 / 120 larger ones (up to 100 x 8) in both polarities x 4e5 / 2e6 seeded draws each; two fifths of them with fewer configured cases than results, a quarter with grouped per-case results (TestResults as the per-case type, ordered by total); matrices with up to 40 cases against an analytic law (specialists); agreement of successive selections.",
+         "Exploration: 400 (quick) / 8000 (thorough) generated result matrices (up to 8 x 5) plus 12 / 120 larger ones (up to 100 x 8) in both polarities x 4e5 / 2e6 seeded draws each; two fifths of them with fewer configured cases than results, a quarter with grouped per-case results (TestResults as the per-case type, ordered by total); matrices with up to 40 cases against an analytic law (specialists); agreement of successive selections; elites of 1025..70000 (thorough ..98304) exact ties (final choice uniform: quarters and thirds); 200000 / 4 million generated per-draw cases under generated random streams (every winner survives under some order of the considered cases; the selector value may have failed on another population just before).",
          "Trusted: the harness's enumerator. For a configured count below the number of results every reading of 'the considered cases' (any fixed subset of that size, or a random one) is accepted.",
          "DESIGN.md §2 C08"),
  "C13": (PBT + " for per-selection invariants through marker members (exactly one member used, never weight 0, construction rejected iff a partial sum overflows) plus seeded statistical tests of member frequencies = w_i / sum(w) over all binary tree shapes up to 5 leaves, real chains and dynamic lists (up to 300 members, also lists used for selections while they are still being extended)",
-         "Exploration: hundreds of thousands of generated weighted shapes (incl. selection from an empty population: the chosen member's own error, never a weight-0 member's) and ~200 law configurations x 4e5 (quick) / 5e6 (thorough) draws; agreement of successive selections.",
+         "Exploration: hundreds of thousands of generated weighted shapes (incl. selection from an empty population: the chosen member's own error, never a weight-0 member's) and ~200 law configurations x 4e5 (quick) / 5e6 (thorough) draws, dynamic lists also with weights of 2^32..2^61; agreement of successive selections.",
          "Trusted: rand Bernoulli / choose_weighted; the payload of WeightSumOverflow is not compared.",
          "DESIGN.md §2 C13"),
  "C09": (PBT + ": generated (population kind Vec / VecDeque / BTreeSet / HashSet, population size, rounds, serial/parallel, rayon pool size, failure positions, delay script) histories with an instrumented child maker; invariants over the history (atomic replacement, all-or-nothing on failure, every call saw the old population, pairwise distinct random words)",
-         "Exploration: 12000 (quick) / 400000 (thorough) generated multi-round histories over pool sizes 1..16, sizes 0..1000 and four population kinds (the set kinds merge equal children, so the size can change between steps). Children left over from failed attempts on the same population are admitted in the next successful step. Interleavings are perturbed by pool size and a delay script, not enumerated; this is the weakest claim of the set.",
+         "Exploration: 12000 (quick) / 400000 (thorough) generated multi-round histories over pool sizes 1..16, sizes 0..1000 and four population kinds (the set kinds merge equal children, so the size can change between steps) plus Vec populations of individuals with 5000 / 40000 / 70000 bytes of inline payload. Children left over from failed attempts on the same population are admitted in the next successful step. Interleavings are perturbed by pool size and a delay script, not enumerated; this is the weakest claim of the set.",
          "Trusted: rayon; the thread generator's words are treated as pairwise distinct when children have live randomness (64-bit collisions are negligible).",
          "DESIGN.md §2 C09"),
  "C14": (PBT + ": generated composition trees of the real combinators around logging probe operators, differential against a reference interpreter of the tree (call order, inputs, words drawn at each stream offset, stop at first failure, failing part recovered from the error); wrapper operators against the wrapped parts run by hand from equal generator states; statically typed compositions whose source() and diagnostic_source() chains must show the same levels down to the failing probe",
-         "Exploration: hundreds of thousands (quick) to millions (thorough) of generated compositions (depth <= 6) and wrapper pipelines, values up to 150000-element vectors and 4 KiB outputs, zero-sized outputs; ten kinds of statically typed chains (tuples, arrays, Then, And, Map, Repeat, references, wide and unit payloads).",
+         "Exploration: hundreds of thousands (quick) to millions (thorough) of generated compositions (depth <= 6) and wrapper pipelines, values up to 150000-element vectors and 4 KiB outputs, zero-sized outputs; sixteen kinds of statically typed chains (tuples, arrays, Then, And, Map, Repeat, references, wide and unit payloads, zero-sized error types incl. the library's own EmptyPopulation under apply_twice).",
          "Trusted: the reference interpreter; the failing part is read from Debug/Display text of the crate's error types (fields private) and reported unobservable if that text changes.",
          "DESIGN.md §2 C14"),
  "C15": (PBT + ": order laws and operator agreement on exhaustive extreme triples and generated values, result vectors (built through 12 kinds of source iterator, incl. imprecise size hints) vs independently computed totals (i64 exactly; f64 exactly for exactly summable values and within the rounding bound otherwise; i32, u64), individuals vs their results, generator/scorer provenance with a recording scorer",
-         "Exploration with an exhaustive component: all 343 triples over the 7 extreme i64 values; hundreds of thousands (quick) to millions (thorough) of generated cases; result counts at powers of two and block sizes; further result types (f64 scores and errors with exactly summable and general values, i32, u64) and partially ordered results inside individuals.",
+         "Exploration with an exhaustive component: all 343 triples over the 7 extreme i64 values; hundreds of thousands (quick) to millions (thorough) of generated cases; result counts at powers of two and block sizes; further result types (f64 scores and errors with exactly summable and general values, i32, u64) and partially ordered results inside individuals; float collections compared with another collection, their clone and themselves.",
          "Trusted: i128 reference sums; TestResults == is not required to agree with cmp.",
          "DESIGN.md §2 C15"),
  "C16": (PBT + ": call histories over a registry of operators, each call run twice from cloned instrumented generators (results, words consumed, next word, sequence of generator entry points used), repeats within a history, a third run on another thread; Push programs run twice and with permuted input declaration order",
-         "Exploration: 150000 + 60000 (quick) to millions (thorough) of generated histories / programs, a tenth of the calls with large arguments (populations up to 300, ragged many-case lexicase, genomes of hundreds of genes); absence of hidden inputs can only be refuted by sampling.",
+         "Exploration: 150000 + 60000 (quick) to millions (thorough) of generated histories / programs, a tenth of the calls with large arguments (populations up to 300, ragged many-case lexicase, genomes of hundreds of genes, tie-laden populations of 520..1400 with small tournaments); absence of hidden inputs can only be refuted by sampling.",
          "Trusted: the word-counting generator wrapper around StdRng.",
          "DESIGN.md §2 C16"),
  "C17": ("generated compile probe (one erased flavour per line, cargo check JSON diagnostics) deciding existence of all 280 flavours, then " + PBT + ": concrete value vs every erased flavour from cloned instrumented generators (result identity, error text and downcast, words consumed, next word, sequence of next_u32 / next_u64 / fill_bytes(len) calls), with probe implementations that draw through every generator entry point",
@@ -77,11 +77,11 @@ CLAIMED = {
          "Trusted: rustc diagnostics codes (E0277/E0599/E0271 = missing impl); the companion crate harness-dyn.",
          "DESIGN.md §2 C17"),
  "C18": (PBT + " for sizes and membership (counting / tagging element generator, all 14 conversion flavours + macro, pointer identity) plus seeded statistical tests of member frequencies = multiplicity / length",
-         "Exploration: sizes 0..300 (2000 thorough) plus boundary sizes to 5000 and 100000 once; 15 choice flavours x lengths 1..200 x 1e6 (quick) / 1e7 (thorough) draws, the Vec / slice flavours built once over 255..65537 members, sources of 25 and 33 million members, and member counts up to 2^33+1 with zero-sized members; agreement of successive samples.",
+         "Exploration: sizes 0..300 (2000 thorough) plus boundary sizes to 5000 and 100000 once; 15 choice flavours x lengths 1..200 x 1e6 (quick) / 1e7 (thorough) draws, the Vec / slice flavours built once over 255..65537 members, sources of 25 and 33 million members, sources of 3 * 2^26 members (every 64th 32-bit word is rejected by an index sampler), member counts up to 2^33+1 with zero-sized members; agreement of successive samples; generator values resized after use; Bitstring::random / random_with_probability directly, once per run at 2^24+1, 2^25+1 and 2^26+2 bits.",
          "Trusted: rand Uniform / Choose (the law is about how the crate uses them).",
          "DESIGN.md §2 C18"),
  "C19": ("seeded source generation + generated compile probes and a generated test program: builder call chains are produced from a model of the type-state automaton; must-compile / must-not-compile expectations are decided per line from cargo check JSON diagnostics, legal chains are executed and compared with the model's predicted state",
-         "Exploration: 6 (quick) / 30 (thorough) generated state structs in two variants plus PushState, 260 / 2500 classified call chains, 280+ / 4600+ executed legal chains per run; different seeds generate different structs and chains; the stack type is spelled by short, crate-qualified and absolute paths; value lists are also given as lazy iterators of 2^40 elements over tiny maxima (must be rejected or truncated without being drained).",
+         "Exploration: 6 (quick) / 30 (thorough) generated state structs in two variants plus PushState, 260 / 2500 classified call chains, 280+ / 4600+ executed legal chains per run; different seeds generate different structs and chains; the stack type is spelled by short, crate-qualified and absolute paths; value lists are also given as lazy iterators of 2^40 elements over tiny maxima (must be rejected or truncated without being drained); maxima of usize::MAX with second batches whose length added to the size does not fit in a usize; global resizes after a program was loaded.",
          "Trusted: rustc diagnostics, the harness's automaton model; chains the statement does not decide are generated but not judged; failing chains are reported as generated (no shrinking - one chain is the unit).",
          "DESIGN.md §2 C19"),
 }
